@@ -108,7 +108,7 @@ def cases(draw):
             m = draw(st.sampled_from(["SLSQP", "auto", "trust-constr"]))
             steps += [["solve", m], ["set", sl, val], ["solve", m]]
             nsolve += 2
-    return {"pslots": pslots, "as_vec": as_vec, "constraints": use_constraints, "steps": steps,
+    return {"pslots": pslots, "as_vec": as_vec, "constraints": use_constraints, "steps": steps, "deep_algorithms": draw(st.integers(0, 5)) == 0,
             "config": draw(st.sampled_from(["default", "default", "default", "lowthr"]))}
 
 
